@@ -45,6 +45,15 @@ fn strategy(untyped: bool) -> impl Strategy<Value = Case> {
         })
 }
 
+/// the leaf backend that receives writes
+fn upper_leaf(c: &Cfg) -> Cfg {
+    match c {
+        Cfg::Alt(i, _) | Cfg::OvlSub(i, _) => upper_leaf(i),
+        Cfg::Ovl(ls) => upper_leaf(&ls[0]),
+        other => other.clone(),
+    }
+}
+
 fn demote_phys(c: &Cfg) -> Cfg {
     match c {
         Cfg::Mem | Cfg::Phys | Cfg::Emb => Cfg::Mem,
@@ -113,6 +122,26 @@ fn sync_script(root: &vfs::VfsPath, path: &str, len: u64, script: &[ROp]) -> Res
                 let r = h.read_to_end(&mut v);
                 out.push(r.map(|n| (n as u64, v)).map_err(|e| format!("{:?}", e.kind())));
             }
+            ROp::Drain(k) => {
+                let piece = drain_piece(*k, len);
+                let mut v = vec![];
+                let mut buf = [0u8; 2048];
+                let mut err = None;
+                for _ in 0..400_000 {
+                    match h.read(&mut buf[..piece]) {
+                        Ok(0) => break,
+                        Ok(n) => v.extend_from_slice(&buf[..n.min(piece)]),
+                        Err(e) => {
+                            err = Some(format!("{:?}", e.kind()));
+                            break;
+                        }
+                    }
+                }
+                out.push(match err {
+                    Some(e) => Err(e),
+                    None => Ok((v.len() as u64, v)),
+                });
+            }
             ROp::Read(k, n) | ROp::ReadExact(k, n) => {
                 let want = read_size(*k, *n, len as usize);
                 let mut buf = vec![0u8; want];
@@ -148,6 +177,8 @@ fn test(case: &Case, st: &mut Stats, counting: bool, nplans: usize, panics_only:
     let mut trace: Vec<String> = vec![];
     let mut facts = (0usize, 0usize, 0u64, 0u64, 0u64, 0usize, 0u64); // failing calls, deep walks, pend rd, pend md, pend total, scripts
     let mut overlap_total = 0u64;
+    let mut times_total = 0u64;
+    let mut twin_total = 0u64;
     let profile = if panics_only { Profile::Untyped } else { Profile::Typed };
     let runtime = rt();
     let res: Result<(), (usize, String)> = runtime.block_on(async {
@@ -163,6 +194,13 @@ fn test(case: &Case, st: &mut Stats, counting: bool, nplans: usize, panics_only:
             ps.push(abuild(&case.base.cfg, &prepop, Some(plan.clone())).await.map_err(e0)?);
             plans.push(plan);
         }
+        // a second async overlay over the same layers, built before the history (overlays keep
+        // their whole state in the layers)
+        let atwin: Option<vfs::async_vfs::AsyncVfsPath> = if matches!(case.base.cfg, Cfg::Ovl(_) | Cfg::OvlSub(..)) && !a.layers.is_empty() && !panics_only {
+            Some(vfs::async_vfs::AsyncVfsPath::new(vfs::async_vfs::AsyncOverlayFS::new(&a.layers)))
+        } else {
+            None
+        };
         let mut model = snapshot(&s.root).tree;
         {
             let sa = asnapshot(&a.root).await;
@@ -173,6 +211,8 @@ fn test(case: &Case, st: &mut Stats, counting: bool, nplans: usize, panics_only:
         let mut script_i = 0;
         let mut st_open = 0u64;
         let mut st_overlap = 0u64;
+        let mut st_times = 0u64;
+        let mut twin_views = 0u64;
         // every history ends with a walk over the whole tree (and one in the middle)
         let n_ops = case.base.ops.len();
         let walk_raw = RawOp { kind: 0, mode: 0, a: 0, b: 0, mode2: 1, c: 0, d: 0, data: DataSpec { kind: 0, len: 0, seed: 0 } };
@@ -185,6 +225,36 @@ fn test(case: &Case, st: &mut Stats, counting: bool, nplans: usize, panics_only:
                 continue;
             }
             if matches!(op, Op::SetTime(..)) {
+                continue;
+            }
+            // now and then the two portable timestamp setters, in either order, on an existing
+            // entry: same outcomes and the same (modified, accessed) pair in both worlds
+            // (the async in-memory backend implements no setters - timestamps are absent from its
+            // metadata -, so this is compared where both worlds implement them: physical leaves)
+            if raw.mode2 % 16 == 9 && !panics_only && model.m.len() > 1 && upper_leaf(&case.base.cfg) == Cfg::Phys {
+                let keys: Vec<&String> = model.m.keys().filter(|k| !k.is_empty()).collect();
+                let path = keys[crate::util::idx(raw.c, keys.len())].clone();
+                let t_acc = crate::exec::time_of(1_000_000_000 + raw.a as i64 * 1000, (raw.b as u32) * 15_000);
+                let t_mod = crate::exec::time_of(1_200_000_000 + raw.b as i64 * 1000, (raw.a as u32) * 15_000);
+                let acc_first = raw.mode % 2 == 0;
+                let sync_obs = {
+                    let vp = at(&s.root, &path).map_err(|e| (step, e.to_string()))?;
+                    let (r1, r2) = if acc_first { (vp.set_access_time(t_acc).is_ok(), vp.set_modification_time(t_mod).is_ok()) } else { (vp.set_modification_time(t_mod).is_ok(), vp.set_access_time(t_acc).is_ok()) };
+                    (r1, r2, vp.metadata().ok().map(|m| (m.modified, m.accessed)))
+                };
+                let targets: Vec<&vfs::async_vfs::AsyncVfsPath> = std::iter::once(&a.root).chain(ps.iter().map(|p| &p.root)).collect();
+                for t in targets {
+                    let vp = aat(t, &path).map_err(|e| (step, e.to_string()))?;
+                    let (r1, r2) = if acc_first { (vp.set_access_time(t_acc).await.is_ok(), vp.set_modification_time(t_mod).await.is_ok()) } else { (vp.set_modification_time(t_mod).await.is_ok(), vp.set_access_time(t_acc).await.is_ok()) };
+                    let async_obs = (r1, r2, vp.metadata().await.ok().map(|m| (m.modified, m.accessed)));
+                    // the memory backends stamp "now" on entries: only compare what was set
+                    let same = sync_obs.0 == async_obs.0 && sync_obs.1 == async_obs.1 && (!(sync_obs.0 && sync_obs.1) || sync_obs.2 == async_obs.2);
+                    if !same {
+                        return Err((step, format!("set_{}_time then set_{}_time on '{}': sync gives (ok, ok, (modified, accessed)) = {:?} but async gives {:?}", if acc_first { "access" } else { "modification" }, if acc_first { "modification" } else { "access" }, path, sync_obs, async_obs)));
+                    }
+                }
+                trace.push(format!("timestamp setters on '{}' ({} first) compared on all twins", path, if acc_first { "access" } else { "modification" }));
+                st_times += 1;
                 continue;
             }
             // now and then a create session is held open and the file observed meanwhile
@@ -368,6 +438,13 @@ fn test(case: &Case, st: &mut Stats, counting: bool, nplans: usize, panics_only:
                 if sa.tree != ss.tree {
                     return Err((step, format!("after {}: async tree differs from sync tree: {:?} {:?}", op.render(), diff_trees(&ss.tree, &sa.tree), sa.problems.iter().take(2).collect::<Vec<_>>())));
                 }
+                if let Some(tw) = &atwin {
+                    let st2 = asnapshot(tw).await;
+                    if st2.tree != ss.tree {
+                        return Err((step, format!("after {}: a second async overlay over the same layers (built before the history) differs from the sync tree: {:?}", op.render(), diff_trees(&ss.tree, &st2.tree))));
+                    }
+                    twin_views += 1;
+                }
                 for (pi, p) in ps.iter().enumerate() {
                     let sp = asnapshot(&p.root).await;
                     if sp.tree != ss.tree {
@@ -423,6 +500,8 @@ fn test(case: &Case, st: &mut Stats, counting: bool, nplans: usize, panics_only:
         }
         facts.6 = st_open;
         overlap_total = st_overlap;
+        times_total = st_times;
+        twin_total = twin_views;
         Ok(())
     });
     drop(runtime);
@@ -443,6 +522,8 @@ fn test(case: &Case, st: &mut Stats, counting: bool, nplans: usize, panics_only:
                 st.label_n("reader_scripts_compared", facts.5 as u64);
                 st.label_n("open_handle_create_sessions_observed", facts.6);
                 st.label_n("overlapping_append_sessions", overlap_total);
+                st.label_n("timestamp_setter_pairs_compared", times_total);
+                st.label_n("second_async_overlay_views_compared", twin_total);
                 if nt {
                     st.nontrivial.insert(crate::util::fnv(serde_json::to_string(&case.base.to_json()).unwrap().as_bytes()) ^ case.plan_seed);
                 }
@@ -472,6 +553,15 @@ fn futures_drop_repro() -> CaseResult {
 pub fn replay(v: &Value) -> CaseResult {
     if v.get("kind").and_then(|k| k.as_str()) == Some("c15-futures-drop") {
         return futures_drop_repro();
+    }
+    if v.get("kind").and_then(|k| k.as_str()) == Some("c15-times") {
+        let case = TimesCase {
+            cfg: Cfg::from_json(v.get("cfg").unwrap_or(&Value::Null)).unwrap_or(Cfg::Phys),
+            on_dir: v.get("on_dir").and_then(|x| x.as_bool()).unwrap_or(false),
+            calls: v.get("calls").and_then(|x| x.as_array()).map(|a| a.iter().filter_map(|c| Some((c.get(0)?.as_bool()?, c.get(1)?.as_u64()? as u16, c.get(2)?.as_u64()? as u16))).collect()).unwrap_or_default(),
+        };
+        let mut st = Stats::default();
+        return with_stdout_silenced(|| test_times(&case, &mut st, false));
     }
     if v.get("kind").and_then(|k| k.as_str()) == Some("c15-own-layer") {
         let case = OwnCase {
@@ -522,7 +612,80 @@ pub fn panic_part(ctx: &RunCtx) -> (Stats, Option<Failure>) {
     (stats, failure)
 }
 
-const RULE: &str = "typed C01/C09 histories vec(op,0..=28) on every stack available in both worlds (Mem, Phys, altroot, overlay incl. sub-path layers, nesting<=2, pre-populated layers) executed in lock-step on the sync stack, its async twin, and N further async twins whose leaf filesystems are wrapped in PendFS (every trait future and every read_dir stream item returns Pending 0..3 times per a generated plan; N=3 quick, 8 thorough); per call: same Ok/Err, same error class, equal values (walk results as multisets, async order must be parent-before-child); after every call identical full snapshots; read/seek scripts on async read handles compared call by call with the sync handles; create sessions held open and observed meanwhile; append sessions that overlap a second append session / a re-creation / a removal of the same file before they write (same resulting trees); tokio current-thread runtime; PLUS transfers between an overlay and its OWN layers (copy_file / move_file / copy_dir / move_dir from the overlay into its upper layer - manual copy-up -, from its lowest layer into the overlay, into a second overlay instance over the same layers): same outcome, same overlay tree, same layer trees in both worlds; PLUS walk_dir streams (sync, async, async under a Pending plan) over generated trees with a directory removed after k items were pulled: the stream must terminate, yield no entry twice, yield every entry outside the removed directory, name only vanished entries in its error items and report each of them at most once, like the sync iterator; non-trivial = history with >=1 failing call and >=1 walk over >=2 nested directories, under a plan that returned Pending inside a read_dir future and inside a metadata future of that walk";
+const RULE: &str = "typed C01/C09 histories vec(op,0..=28) on every stack available in both worlds (Mem, Phys, altroot, overlay incl. sub-path layers, nesting<=2, pre-populated layers) executed in lock-step on the sync stack, its async twin, and N further async twins whose leaf filesystems are wrapped in PendFS (every trait future and every read_dir stream item returns Pending 0..3 times per a generated plan; N=3 quick, 8 thorough); per call: same Ok/Err, same error class, equal values (walk results as multisets, async order must be parent-before-child); after every call identical full snapshots; read/seek scripts on async read handles compared call by call with the sync handles; create sessions held open and observed meanwhile; the two portable timestamp setters on physical-backed stacks, in histories and in a directed part with 1..4 setter calls in any order (same outcomes and same (modified, accessed) pair after every call; the async in-memory backend implements no setters); on overlays a second async overlay over the same layers must show the sync tree after every step; append sessions that overlap a second append session / a re-creation / a removal of the same file before they write (same resulting trees); tokio current-thread runtime; PLUS transfers between an overlay and its OWN layers (copy_file / move_file / copy_dir / move_dir from the overlay into its upper layer - manual copy-up -, from its lowest layer into the overlay, into a second overlay instance over the same layers): same outcome, same overlay tree, same layer trees in both worlds; PLUS walk_dir streams (sync, async, async under a Pending plan) over generated trees with a directory removed after k items were pulled: the stream must terminate, yield no entry twice, yield every entry outside the removed directory, name only vanished entries in its error items and report each of them at most once, like the sync iterator; non-trivial = history with >=1 failing call and >=1 walk over >=2 nested directories, under a plan that returned Pending inside a read_dir future and inside a metadata future of that walk";
+
+// ---------------------------------------------------------------------------------------------
+// timestamp setters on physical-backed stacks (the only ones that implement them in both worlds)
+// ---------------------------------------------------------------------------------------------
+
+#[derive(Clone, Debug)]
+pub struct TimesCase {
+    pub cfg: Cfg,
+    pub calls: Vec<(bool, u16, u16)>,
+    pub on_dir: bool,
+}
+
+fn times_strategy() -> impl Strategy<Value = TimesCase> {
+    let cfgs = prop_oneof![
+        3 => Just(Cfg::Phys),
+        1 => Just(Cfg::Alt(Box::new(Cfg::Phys), 1)),
+        1 => Just(Cfg::Ovl(vec![Cfg::Phys, Cfg::Mem])),
+        1 => Just(Cfg::OvlSub(Box::new(Cfg::Phys), 2)),
+    ];
+    (cfgs, proptest::collection::vec((any::<bool>(), any::<u16>(), any::<u16>()), 1..5), any::<bool>()).prop_map(|(cfg, calls, on_dir)| TimesCase { cfg, calls, on_dir })
+}
+
+fn times_json(c: &TimesCase) -> Value {
+    json!({"kind": "c15-times", "cfg": c.cfg.to_json(), "on_dir": c.on_dir, "calls": c.calls.iter().map(|(m, a, b)| json!([m, a, b])).collect::<Vec<_>>()})
+}
+
+fn test_times(case: &TimesCase, st: &mut Stats, counting: bool) -> CaseResult {
+    let prepop: Prepop = vec![(0, "/d/f".to_string(), Node::File(std::sync::Arc::new(b"content".to_vec())))];
+    let path = if case.on_dir { "/d" } else { "/d/f" };
+    let runtime = rt();
+    let res: Result<(), String> = runtime.block_on(async {
+        let s = build(&case.cfg, &prepop)?;
+        let a = abuild(&case.cfg, &prepop, None).await?;
+        let sp = at(&s.root, path).map_err(|e| e.to_string())?;
+        let ap = aat(&a.root, path).map_err(|e| e.to_string())?;
+        let mut done: Vec<String> = vec![];
+        let (mut mod_set, mut acc_set) = (false, false);
+        for (is_mod, x, y) in &case.calls {
+            let t = crate::exec::time_of(900_000_000 + *x as i64 * 7919, (*y as u32) * 15_000);
+            let (rs, ra) = if *is_mod { (sp.set_modification_time(t), ap.set_modification_time(t).await) } else { (sp.set_access_time(t), ap.set_access_time(t).await) };
+            done.push(format!("set_{}_time({:?})", if *is_mod { "modification" } else { "access" }, t.duration_since(std::time::UNIX_EPOCH).map(|d| d.as_secs()).unwrap_or(0)));
+            if rs.is_ok() != ra.is_ok() {
+                return Err(format!("{} on '{}': sync {:?} but async {:?}", done.join(", "), path, rs.map_err(|e| e.to_string()), ra.map_err(|e| e.to_string())));
+            }
+            let ms = sp.metadata().map_err(|e| e.to_string())?;
+            let ma = ap.metadata().await.map_err(|e| e.to_string())?;
+            // the two worlds work on two different directories: only fields that were set
+            // explicitly are comparable (the others hold each file's own creation moment)
+            if *is_mod {
+                mod_set = true;
+            } else {
+                acc_set = true;
+            }
+            if (mod_set && ms.modified != ma.modified) || (acc_set && ms.accessed != ma.accessed) {
+                return Err(format!("after {} on '{}': sync metadata (modified, accessed) = {:?} but async {:?}", done.join(", "), path, (ms.modified, ms.accessed), (ma.modified, ma.accessed)));
+            }
+        }
+        Ok(())
+    });
+    drop(runtime);
+    match res {
+        Err(m) => Err(Failure { message: format!("stack {} | {}", case.cfg.render(), m), replay: times_json(case) }),
+        Ok(()) => {
+            if counting {
+                st.label_n("physical_timestamp_setter_calls_compared", case.calls.len() as u64);
+                if case.calls.len() >= 2 {
+                    st.nontrivial.insert(crate::util::fnv_str(&format!("{:?}", case)));
+                }
+            }
+            Ok(())
+        }
+    }
+}
 
 // ---------------------------------------------------------------------------------------------
 // transfers between an overlay and its OWN layers (manual copy-up and the like)
@@ -651,6 +814,11 @@ pub fn run(ctx: &RunCtx) -> i32 {
         let (s2, f2) = walkrm_part(ctx, ctx.tier.pick(3000, 60_000), false);
         stats.merge(s2);
         failure = f2;
+    }
+    if failure.is_none() {
+        let (s4, f4) = with_stdout_silenced(|| run_sharded(ctx, "times", ctx.tier.pick(160, 3000), times_strategy, test_times));
+        stats.merge(s4);
+        failure = f4;
     }
     if failure.is_none() {
         let (s3, f3) = with_stdout_silenced(|| run_sharded(ctx, "ownlayer", ctx.tier.pick(1500, 40_000), own_strategy, test_own));
